@@ -74,7 +74,7 @@ def C01(F, rep, tier, cx):
     RF.S2S3(F, rep, cx.FL, {'S3'})
     RF.F3p(F, rep, cx.FL)   # container payload is what its method field says (compress <-> uncompress agree)
     RF.P4(F, rep, cx.FL)    # the stream never discards bytes that have not been read
-    RF.R5(F, rep)           # ... and never moves the put position over bytes it does not hold
+    RF.R5(F, rep, cx.FL)           # ... and never moves the put position over bytes it does not hold
     RP.P6(F, rep, cx.R, cx.FL)   # ... and the decoder never rewinds into bytes it let go
     RF.K12(F, rep, cx.R, cx.FL)  # every object handed to write() reaches the file: the workers drain, close() does not cut them short
     RF.A1(F, rep)           # the API passes the queue's objects and its end-of-file state through unchanged
@@ -146,7 +146,7 @@ def C04(F, rep, tier, cx):
     # "identical for all container sizes": the stream between encoder and compressor completes every chunked request
     RF.R1(F, rep)
     RF.R4(F, rep)
-    RF.R5(F, rep)
+    RF.R5(F, rep, cx.FL)
     # "exactly the objects written": no worker gives up early (a timed wait that is treated as a wake-up, a worker stopped by close())
     RP.K2(F, rep, cx.R)
     RF.K12(F, rep, cx.R, cx.FL)
@@ -243,6 +243,7 @@ def C09(F, rep, tier, cx):
     ws = cx.ws()
     RP.K2s(F, rep, cx.R, ws)   # skipping an unknown object can put the get position ahead of the put position:
     RP.K2u(F, rep, cx.R, ws)   # the producer's admission test must survive that, or everything behind the object is lost
+    RF.R5(F, rep, cx.FL)       # ... and the containers delivered while the get position is ahead must still be stored
 
 
 def C10(F, rep, tier, cx):
@@ -259,6 +260,8 @@ def C10(F, rep, tier, cx):
     ws = cx.ws()
     RP.K2s(F, rep, cx.R, ws)              # hostile sizes put the get position ahead of the put position:
     RP.K2u(F, rep, cx.R, ws)              # the producers' admission test must survive a negative fill level
+    RP.K6(F, rep, cx.R, cx.FL, ws)        # a worker that stopped on a corrupt object must not leave close() waiting for the other one
+    RF.O5(F, rep)                         # no cached pointer into storage that is released concurrently
 
 
 def C11(F, rep, tier, cx):
@@ -269,6 +272,7 @@ def C11(F, rep, tier, cx):
     rep.counts.pop('K4', None)
     RF.K9(F, rep, cx.R, cx.FL)
     RF.G1(F, rep)
+    RF.O5(F, rep)
     RF.O1O2(F, rep, cx.FL, [RF.U2Q, RF.Q2U, FILE + '::read', FILE + '::write'], rules=('O1',))
 
 
@@ -276,6 +280,7 @@ def C12(F, rep, tier, cx):
     """P1 finite capacities configured; P2 every insertion preceded by a back-pressure wait; P3 dropOldData on every committing path"""
     RP.P(F, rep, cx.R, cx.FL, cx.ws())
     RP.P6(F, rep, cx.R, cx.FL)
+    RF.K13(F, rep, cx.R)
     RF.P4(F, rep, cx.FL)
     RF.P5(F, rep, cx.FL)
 
@@ -300,6 +305,7 @@ def C14(F, rep, tier, cx):
     RF.Z1(F, rep)
     RF.G1(F, rep)
     RF.K11(F, rep, cx.R, cx.FL)   # "does not depend on timing": no worker decision on a racy snapshot
+    RP.K2(F, rep, cx.R)           # ... and no wait that gives up after a while
 
 
 def C15(F, rep, tier, cx):
@@ -313,7 +319,7 @@ def C15(F, rep, tier, cx):
     RF.R2(F, rep, cx.FL)
     RF.R3(F, rep, cx.FL)
     RF.R4(F, rep)
-    RF.R5(F, rep)
+    RF.R5(F, rep, cx.FL)
     RF.P5(F, rep, cx.FL)
     RF.P4(F, rep, cx.FL)
     RF.S4(F, rep)
@@ -338,6 +344,7 @@ def C17(F, rep, tier, cx):
     RD.D5(F, rep, None)
     RD.D4(F, rep)
     RD.D6(F, rep)
+    RF.G1(F, rep)   # the factory's input (the peeked header) is not shared between File instances / threads
 
 
 def advisory_unreachable(F):
